@@ -16,4 +16,73 @@ MUTANTS = {
  "post-extern-to-pre": ("crates/vm/src/sync.rs", "            crate::state_read::key_range_ext(state.post(), stack, memory)", "            crate::state_read::key_range_ext(state.pre(), stack, memory)", ["C11"]),
  "pex-swapped": ("crates/vm/src/access.rs", "                .chain(word_4_from_u8_32(d.predicate_to_solve.contract.0))\n                .chain(word_4_from_u8_32(d.predicate_to_solve.predicate.0))", "                .chain(word_4_from_u8_32(d.predicate_to_solve.predicate.0))\n                .chain(word_4_from_u8_32(d.predicate_to_solve.contract.0))", ["C12"]),
  "jumpif-abs-revert": ("crates/vm/src/total_control_flow.rs", "usize::try_from(dist.unsigned_abs())", "usize::try_from(dist.abs())", ["C05"]),
+
+ # --- scenario layer
+ "d1-revert": ("crates/check/src/solution.rs", """    while let Some(ix) = to_visit.pop() {
+        if deferred.insert(ix) {
+            to_visit.extend(predicate.node_edges(ix as usize).expect("Already checked"));
+        }
+    }""", """    to_visit.sort();
+    for ix in to_visit {
+        deferred.insert(ix);
+    }
+    for ix in 0..predicate.nodes.len() as u16 {
+        if deferred.contains(&ix) {
+            for child in predicate.node_edges(ix as usize).expect("Already checked") {
+                deferred.insert(*child);
+            }
+        }
+    }""", ["C01", "C03"]),
+ "d10-revert": ("crates/check/src/solution.rs", """            if usize::from(*edge) >= predicate.nodes.len() {
+                return Err(PredicateError::InvalidNodeEdges(node_ix));
+            }""", """""", ["C01"]),
+ "parents-dedup": ("crates/check/src/solution.rs", """            nodes.entry(*edge).or_default().push(node_ix as u16);""", """            let ps = nodes.entry(*edge).or_default();
+            if !ps.contains(&(node_ix as u16)) {
+                ps.push(node_ix as u16);
+            }""", ["C01"]),
+ "leaf-top-word": ("crates/check/src/solution.rs", """        match vm.stack[..] {
+            [2] => Output::Leaf(ProgramOutput::DataOutput(DataOutput::Memory(vm.memory))),
+            [1] => Output::Leaf(ProgramOutput::Satisfied(true)),""", """        match vm.stack[..] {
+            [.., 2] => Output::Leaf(ProgramOutput::DataOutput(DataOutput::Memory(vm.memory))),
+            [.., 1] => Output::Leaf(ProgramOutput::Satisfied(true)),""", ["C01"]),
+ "deleted-falls-back": ("crates/check/src/solution.rs", """                    Some(value) => out.push(value.clone()),""", """                    Some(value) if !value.is_empty() => out.push(value.clone()),
+                    Some(_) => {
+                        let mut value = state.key_range(contract_addr.clone(), key.clone(), 1)?;
+                        out.push(value.pop().unwrap_or_default());
+                    }""", ["C03"]),
+ "next-key-no-carry": ("crates/check/src/solution.rs", """            Word::MAX => *w = Word::MIN,""", """            Word::MAX => return None,""", ["C03"]),
+ "d3-revert": ("crates/check/src/solution.rs", """        let mut mut_set: HashSet<Key> = s.state_mutations.iter().map(|m| m.key.clone()).collect();""", """        let mut mut_set: HashSet<Key> = HashSet::new();""", ["C16", "C01"]),
+ "outputs-unordered": ("crates/check/src/solution.rs", """        let outputs: BTreeMap<u16, Result<(Output, Gas), _>> =""", """        let outputs: HashMap<u16, Result<(Output, Gas), _>> =""", ["C02", "C01"]),
+ "set-addr-unsorted": ("crates/hash/src/solution_set_addr.rs", """    solution_addrs.sort();
+""", """""", ["C04", "C17"]),
+ "contract-addr-unsorted": ("crates/hash/src/contract_addr.rs", """    predicate_addrs.sort();
+""", """""", ["C17", "C19"]),
+ "d9-revert": ("crates/types/src/predicate/encode.rs", """        + 2 * LEN_SIZE_BYTES""", """        + 2""", ["C17"]),
+ "max-solutions-gte": ("crates/check/src/solution.rs", """    if solutions.len() > MAX_SOLUTIONS {""", """    if solutions.len() >= MAX_SOLUTIONS {""", ["C16"]),
+ "key-size-dropped": ("crates/check/src/solution.rs", """            check_key_size(&mutation.key).map_err(InvalidSolution::StateMutationEntry)?;""", """""", ["C16"]),
+ "d8-revert": ("crates/asm/src/effects.rs", """            Op::StateRead(StateRead::PostKeyRange) => effects |= Effects::PostKeyRange,
+            Op::StateRead(StateRead::PostKeyRangeExtern) => {
+                effects |= Effects::PostKeyRangeExtern
+            }
+""", """""", ["C15"]),
+ "opcodes-swapped": ("crates/asm-spec/asm.yml", """        BitAnd:
+          opcode: 0x1A""", """        BitAnd:
+          opcode: 0x1B""", ["C13"]),
+ "d6-revert": ("crates/types/src/solution/decode.rs", """    if bytes.len() <= key_end {""", """    if bytes.len() < key_end {""", ["C06"]),
+ "d7-revert": ("crates/check/src/solution.rs", """            let num_values = num_values.min(Memory::SIZE_LIMIT / 2 + 1);""", """""", ["C06"]),
+ "lock-guard-dropped": ("crates/lock/src/lib.rs", """        f(&mut self.data.lock().expect("Mutex was poisoned"))""", """        #[allow(unsafe_code)]
+        {
+            let p: *mut T = &mut *self.data.lock().expect("Mutex was poisoned");
+            f(unsafe { &mut *p })
+        }""", ["C20"]),
+ "serde-bytecode-binary": ("crates/types/src/serde/bytecode.rs", """    if s.is_human_readable() {
+        hex::serialize(bytecode, s)
+    } else {
+        bytecode.serialize(s)
+    }""", """    if !s.is_human_readable() {
+        hex::serialize(bytecode, s)
+    } else {
+        bytecode.serialize(s)
+    }""", ["C18"]),
+ "sign-ignores-salt": ("crates/hash/src/contract_addr.rs", """            .chain(Some(salt.as_slice())),""", """            .chain(Some(&salt[..0])),""", ["C17", "C19"]),
 }
